@@ -85,11 +85,15 @@ type Item struct {
 	Kind string `json:"kind"` // rule | media | import | raw
 	// rule
 	Sel    []Complex `json:"sel,omitempty"`
-	Decls  []Decl    `json:"d,omitempty"`      // the rule's own declarations (they come first)
-	Nested []Item    `json:"nest,omitempty"`   // nested style rules, after the declarations
-	BadSel bool      `json:"badsel,omitempty"` // selector text is invalid: the rule is dropped
-	PE     string    `json:"pe,omitempty"`     // pseudo-element (before | after) appended to every selector
-	Var    int       `json:"var,omitempty"`    // spelling variant of @import / @media
+	Decls  []Decl    `json:"d,omitempty"`    // the rule's own declarations (they come first)
+	Nested []Item    `json:"nest,omitempty"` // nested style rules, after the declarations
+	// Trail: declarations written after the nested rules.  Nesting 1 (2023 CR) handles them as if
+	// they came before the nested rules; the 2024 drafts keep them in place (nested declarations
+	// rule).  The oracle accepts either reading and reports which one was observed.
+	Trail  []Decl `json:"trail,omitempty"`
+	BadSel bool   `json:"badsel,omitempty"` // selector text is invalid: the rule is dropped
+	PE     string `json:"pe,omitempty"`     // pseudo-element (before | after) appended to every selector
+	Var    int    `json:"var,omitempty"`    // spelling variant of @import / @media
 	// media / import
 	Media []string `json:"media,omitempty"` // media types; empty = all
 	Items []Item   `json:"items,omitempty"`
@@ -537,6 +541,7 @@ func (it Item) text(b *strings.Builder) {
 			for _, n := range it.Nested {
 				n.text(b)
 			}
+			b.WriteString(declsText(it.Trail))
 		}
 		b.WriteString("}\n")
 	case "media":
